@@ -628,3 +628,32 @@ func frames(stack string, n int) string {
 	}
 	return strings.Join(out, " < ")
 }
+
+// FuzzJudge is used by native fuzz targets: it filters known findings and,
+// for an unexplained violation, writes a replay file and fails the test with
+// a VIOLATION line in the message (which cmd/vrun picks up).
+func FuzzJudge[C any](t *testing.T, id string, c C, o Outcome) {
+	if o.OutOfClaim != "" || len(o.Violations) == 0 {
+		return
+	}
+	env := ReadEnv(id)
+	ledger, err := LoadLedger(env.Ledger)
+	if err != nil {
+		t.Skip("ledger unreadable")
+	}
+	var bad []Violation
+	for _, v := range o.Violations {
+		if ledger.Known(id, v) == nil {
+			bad = append(bad, v)
+		}
+	}
+	if len(bad) == 0 {
+		return
+	}
+	b, _ := json.Marshal(c)
+	rf, _ := json.MarshalIndent(ReplayFile{Property: id, Case: b, Violations: bad, Tier: "thorough", Note: "found by native fuzzing"}, "", " ")
+	os.MkdirAll(env.ReplayDir, 0o755)
+	path := filepath.Join(env.ReplayDir, fmt.Sprintf("fuzz-%016x.json", hashKey(string(b))))
+	os.WriteFile(path, rf, 0o644)
+	t.Fatalf("VIOLATED property=%s clause=%s signature=%s\n  %s\nVIOLATION property=%s replay=%s", id, bad[0].Clause, bad[0].Sig, trunc(bad[0].Detail, 1500), id, path)
+}
